@@ -14,7 +14,7 @@ RULE = ("seeded random dependency DAGs over two spaces (3-8 cells, fan-in <= 3, 
         "discarded at least one dependent; distinct = distinct (DAG size, op-kind sequence)")
 ASSUMPTIONS = ["ground-truth dependencies come from the generator's call structure, cross-checked against probe nesting",
                "clearing with the recalculation option on is only required to behave like lazy clearing"]
-MIN_COUNTERS = {"quick": {"value_edits": 2000, "dependents_discarded": 1500, "recalc_twin_checks": 200,
+MIN_COUNTERS = {"quick": {"value_edits": 2000, "dependents_discarded": 1000, "recalc_twin_checks": 200,
                           "enter_events": 10000},
                 "thorough": {"value_edits": 60000, "dependents_discarded": 40000, "recalc_twin_checks": 6000,
                              "enter_events": 300000}}
